@@ -48,6 +48,19 @@ def _install_solver_accounting():
     z3.Solver._verif_stats = stats
 
 
+def _install_shims():
+    """Neutralise engine modelling defects found by probing (DESIGN.md section 2.4)."""
+    import re
+
+    from crosshair import core
+
+    # crosshair 0.0.110 models re.Pattern.sub/subn by searching the *remaining suffix* after each
+    # match, which loses look-behind context ('(?<![\\w.])' sees a fresh start of string).  The
+    # strings that reach re.sub in this project are concrete per path: realise and call the real one.
+    for fn in (re.Pattern.sub, re.Pattern.subn):
+        core._PATCH_REGISTRATIONS[fn] = core.with_realized_args(fn)
+
+
 def _solver_stats():
     import z3
 
@@ -105,6 +118,7 @@ def explore_shard(
         gen_args,
     )
     import crosshair.core_and_libs  # noqa: F401  (registers stdlib patches)
+    _install_shims()
     from crosshair.copyext import CopyMode, deepcopyext
     from crosshair.options import DEFAULT_OPTIONS, AnalysisOptionSet
     from crosshair.statespace import CallAnalysis, RootNode, VerificationStatus
